@@ -336,6 +336,10 @@ func (_this *Context) LocalReferenceAnyType(identifier []byte) {
 	_this.LocalReferenceObject(identifier, AllowAny)
 }
 
+func (_this *Context) LocalReferenceNonNull(identifier []byte) {
+	_this.LocalReferenceObject(identifier, AllowNonNull)
+}
+
 func (_this *Context) EndDocument() {
 	if len(_this.forwardLocalReferences) > 0 {
 		var sb strings.Builder
